@@ -115,7 +115,7 @@ def build_group(G, bdir, log):
         if isinstance(r, str):
             r = {'name': r}
         if 'lambda_in' in r:
-            got = u.add_lambda_root(r['lambda_in'], r.get('file'), r.get('line'), r.get('ordinal'))
+            got = u.add_lambda_root(r['lambda_in'], r.get('file'), r.get('line'), r.get('ordinal'), r.get('overload'))
             names[r.get('as', 'lambda@%s:%s:%s' % (r['lambda_in'], r.get('file', ''), r.get('ordinal', r.get('line'))))] = got
             continue
         got = u.add_root(r['name'], sig=r.get('sig'), targs=r.get('targs'))
